@@ -17,7 +17,7 @@ LEVEL_TEXT = (
 
 CHECKS = {
     "C02": dict(
-        rules="R02.1-R02.6, R02.8-R02.10",
+        rules="R02.1-R02.12",
         what="every accepting return of find_cache_meta/validate_meta is dominated by a rejecting gate for each required meta field (or its named bypass); SCC freshness is the conjunction of its three tests (truth-table evaluation); State.is_fresh conjuncts; cached errors of fresh modules are replayed; stored and compared values of each gate field come from the same producer; the indirect-dependency visitor reaches every type component; the fast path and the import-cycle path of transitive_dep_hash select and hash the same dependencies",
         quant="edit histories with a run after every edit, in four store x format configurations",
         technique="CFG must-pass-through with polarity, abstract (truth-table) evaluation of the freshness flag, producer cross-check, component-coverage matrix",
